@@ -335,6 +335,21 @@ def run(chk: Check, eng: Engine) -> None:
             raise AnalysisError(f"{h.fq}: no `settings[...] = ...` store found")
         # locals that hold the option's value
         val_locals = {t.id for n in walk_local(h.node) if isinstance(n, ast.Assign) and isinstance(n.value, ast.Call) and call_name(n.value) == "getattr" for t in n.targets if isinstance(t, ast.Name)}
+        # the option's value used as an operand of `or` / `and` / `not`, or as the test of a conditional expression, is a truth test as well
+        def is_value(e: ast.AST) -> bool:
+            return (isinstance(e, ast.Name) and e.id in val_locals) or (isinstance(e, ast.Call) and call_name(e) == "getattr") or isinstance(e, ast.NamedExpr)
+
+        for x in walk_local(h.node):
+            hit = None
+            if isinstance(x, ast.BoolOp) and not (isinstance(pm_h.get(x), ast.If) and isinstance(x.op, ast.And)):
+                hit = next((o for o in x.values[:-1] if is_value(o)), None)
+            elif isinstance(x, ast.UnaryOp) and isinstance(x.op, ast.Not) and is_value(x.operand):
+                hit = x.operand
+            elif isinstance(x, ast.IfExp) and is_value(x.test):
+                hit = x.test
+            if hit is not None:
+                chk.bad("R17-d", eng.relfile(h), x.lineno, h.fq, f"`{short(x, 70)}` decides by the truth value of the option `{short(hit)}`",
+                        "an option given as 0 (`--random-seed 0`) is replaced or dropped: the run is seeded from OS entropy and differs from run to run", keyparts="seed-truthiness|cli-expr")
         for st in stores:
             for a in ancestors(pm_h, st):
                 if isinstance(a, ast.If):
@@ -507,6 +522,8 @@ _EV = "src/fandango/evolution/evaluation.py"
 _POP = "src/fandango/evolution/population.py"
 _G = "src/fandango/language/grammar/grammar.py"
 MUTANTS = [
+    M("command-line-or-stored-setting", "src/fandango/cli/utils.py", "    if hasattr(args, args_name) and getattr(args, args_name) is not None:\n        settings[name] = getattr(args, args_name)\n",
+      "    value = getattr(args, args_name, None) or settings.get(name)\n    if value is not None:\n        settings[name] = value\n", "R17-d"),
     M("time-budget-in-generation", _ALG, "            if max_generations is not None and generation >= max_generations:\n                break\n            generation += 1\n",
       "            if max_generations is not None and generation >= max_generations:\n                break\n            if time.time() % 2 > 1.9:\n                continue\n            generation += 1\n", "R17-a"),
     M("id-as-tiebreak", _EV, "            for x in sorted(evaluation, key=lambda x: x[1], reverse=True)[", "            for x in sorted(evaluation, key=lambda x: (x[1], id(x[0])), reverse=True)[", "R17-a"),
@@ -526,6 +543,8 @@ MUTANTS += [
       "        failing_trees = list(\n            set(\n                itertools.chain.from_iterable(\n                    fitness.failing_trees for fitness in fitness_values\n                )\n            )\n        )\n", "R17-c"),
 ]
 TWINS = [
+    M("twin-option-value-in-a-local", "src/fandango/cli/utils.py", "    if hasattr(args, args_name) and getattr(args, args_name) is not None:\n        settings[name] = getattr(args, args_name)\n",
+      "    value = getattr(args, args_name, None)\n    if value is not None:\n        settings[name] = value\n", None),
     M("twin-cli-settings-copied-in-a-loop", "src/fandango/cli/utils.py", "    _copy_setting(args, settings, \"best_effort\")\n    _copy_setting(args, settings, \"random_seed\")\n    _copy_setting(args, settings, \"max_repetition_rate\")\n",
       "    for setting_name in (\"best_effort\", \"random_seed\", \"max_repetition_rate\"):\n        _copy_setting(args, settings, setting_name)\n", None),
     M("twin-cli-copy-with-local", "src/fandango/cli/utils.py", "    if hasattr(args, args_name) and getattr(args, args_name) is not None:\n        settings[name] = getattr(args, args_name)\n",
